@@ -31,3 +31,22 @@ prop(
 
 # properties not claimed (yet), with the reason shown in MANIFEST.not_applicable
 NOT_CLAIMED = {}
+
+prop(
+    "C01",
+    level="exploration",
+    rule=("cases = report multisets (fixed corner list: empty, single, only-impressions, only-conversions, all-unmatched, imp+conv, conv+conv "
+          "3-bit wrap, imp+imp 8-bit wrap, >2 repeats, colliding bucket, 8-bit saturation, >256 rows, duplicated pair; plus seeded "
+          "multisets over a small match-key pool; plus sparse multi-shard inputs) x shards {1,2,3,5} x report-to-shard assignment "
+          "{round-robin, random, all-to-one, one-empty} x {semi-honest, malicious} x {no padding, small explicit padding} x output width "
+          "{8,32} x executor {paused-clock single thread, 4-thread tokio}; each run executes the real hybrid_protocol on 3xS in-memory "
+          "helpers and compares the reconstructed leader histogram with an independent plaintext reference; a case is distinct by "
+          "(class, assignment, shards, mode, padding, width, hash of the multiset) and non-trivial when all three leader helpers returned "
+          "Ok and the histogram was compared"),
+    assumptions=["BK=BA8, V=BA3, 256 buckets (the production instantiation); noise (DpMechanism) off - covered by C12",
+                 "non-completion is decided by quiescence under tokio's paused clock (60 virtual seconds), not by wall time"],
+    shards={"quick": 16, "thorough": 16},
+    min_evaluations={"quick": 60, "thorough": 600},
+    must_see=[("histogram_equal", 30), ("stages_logged", 4)],
+    watchdog_s={"quick": 1500, "thorough": 10800},
+)
